@@ -174,3 +174,27 @@ Proof. zip_gt C20_trace. Qed.
 Theorem group_C20_trace stream cap0 ops i : let w := group_run stream cap0 ops in let g := gfold (ginit 0) (tr _ w) in
   t_ret g = true -> t_quiet g = true -> i < N _ g_slots w -> aw _ g_awaited w i = true -> t_polled g i = true.
 Proof. group_gt C20_trace stream cap0. Qed.
+
+(* sibling progress (C20, second sentence) with the wake-up bookkeeping read off the trace *)
+Lemma run_snoc' {A B} (f: A -> B -> A) (l: list B) (x: B) (a: A) : fold_left f (l ++ [x]) a = f (fold_left f l a) x.
+Proof. rewrite fold_left_app. reflexivity. Qed.
+Theorem join_progress_trace tuple tryj scs ops nxt j : (nxt = OPollFresh \/ nxt = OPollSame) ->
+  let w := join_run tuple tryj scs ops in let g := gfold (ginit (length scs)) (tr _ w) in
+  finished _ w = false -> dropped _ w = false -> j < N _ j_slots w -> aw _ j_awaited w j = true -> (t_fired g j = true \/ t_polled g j = false) ->
+  exists pid u, tr _ (join_run tuple tryj scs (ops ++ [nxt])) = tr _ w ++ EB pid :: u /\ (subpolled j u \/ (exists r, In (EEndR r) u) \/ In EEndX u).
+Proof. intros Ho. unfold join_run, run_ops. rewrite run_snoc'. revert Ho. join_gt progress_trace tuple. Qed.
+Theorem merge_progress_trace scs ops nxt j : (nxt = OPollFresh \/ nxt = OPollSame) ->
+  let w := merge_run scs ops in let g := gfold (ginit (length scs)) (tr _ w) in
+  finished _ w = false -> dropped _ w = false -> j < N _ m_n w -> aw _ m_awaited w j = true -> (t_fired g j = true \/ t_polled g j = false) ->
+  exists pid u, tr _ (merge_run scs (ops ++ [nxt])) = tr _ w ++ EB pid :: u /\ (subpolled j u \/ (exists r, In (EEndR r) u) \/ In EEndX u).
+Proof. intros Ho. unfold merge_run, run_ops. rewrite run_snoc'. revert Ho. merge_gt progress_trace. Qed.
+Theorem zip_progress_trace scs ops nxt j : (nxt = OPollFresh \/ nxt = OPollSame) ->
+  let w := zip_run scs ops in let g := gfold (ginit (length scs)) (tr _ w) in
+  finished _ w = false -> dropped _ w = false -> j < N _ z_n w -> aw _ z_awaited w j = true -> (t_fired g j = true \/ t_polled g j = false) ->
+  exists pid u, tr _ (zip_run scs (ops ++ [nxt])) = tr _ w ++ EB pid :: u /\ (subpolled j u \/ (exists r, In (EEndR r) u) \/ In EEndX u).
+Proof. intros Ho. unfold zip_run, run_ops. rewrite run_snoc'. revert Ho. zip_gt progress_trace. Qed.
+Theorem group_progress_trace stream cap0 ops nxt j : (nxt = OPollFresh \/ nxt = OPollSame) ->
+  let w := group_run stream cap0 ops in let g := gfold (ginit 0) (tr _ w) in
+  finished _ w = false -> dropped _ w = false -> j < N _ g_slots w -> aw _ g_awaited w j = true -> (t_fired g j = true \/ t_polled g j = false) ->
+  exists pid u, tr _ (group_run stream cap0 (ops ++ [nxt])) = tr _ w ++ EB pid :: u /\ (subpolled j u \/ (exists r, In (EEndR r) u) \/ In EEndX u).
+Proof. intros Ho. unfold group_run, run_ops. rewrite run_snoc'. revert Ho. group_gt progress_trace stream cap0. Qed.
